@@ -32,10 +32,14 @@ Inductive stmt :=
 Inductive kws := KBase (k : string)                     (* whatever the caller passed under k (possibly nothing) *)
                | KConst (c : const)                     (* forced by evaluate() *)
                | KDefault (k : string) (c : const).     (* the caller's value under k if any, else c *)
+(* which of the CALLER's own keywords reach a callee besides the listed overrides:
+   PNone: none (direct call, or filter_kwargs without **kwargs);  PDeclared: those the callee declares as parameters;
+   PAll: all of them (the callee itself takes **kwargs) *)
+Inductive pass_mode := PNone | PDeclared | PAll.
 Inductive sval :=
 | VInput (x : string) | VGlobal (x : string) | VConst (c : const)
 | VProj (i n : nat) (v : sval)                          (* i-th component of an n-tuple *)
-| VCall (f : string) (args : list sval) (kw : list (string * kwv)) (passes_all : bool)
+| VCall (f : string) (args : list sval) (kw : list (string * kwv)) (mode : pass_mode)
 | VMethod (m : string) (obj : sval) (args : list sval)
 | VAttr (a : string) (obj : sval)
 | VError (msg : string)                                 (* unbound local, unknown callee, missing score key *)
@@ -70,13 +74,13 @@ Definition dedup_keys {A} (l : list (string * A)) : list (string * A) := dedup_a
 Section Exec.
 Variable S : sigs.
 (* util.filter_kwargs: everything if the callee has **kwargs, else only the callee's positional parameter names *)
-Definition filtered_kw (s : pstate) (f : string) : option (list (string * kwv) * bool) :=
+Definition filtered_kw (s : pstate) (f : string) : option (list (string * kwv) * pass_mode) :=
   match assoc f S with
   | None => None
-  | Some (ps, true) => Some (map (fun p => (fst p, KwState (snd p))) (dedup_keys (st_kw s)), true)
+  | Some (ps, true) => Some (map (fun p => (fst p, KwState (snd p))) (dedup_keys (st_kw s)), PAll)
   | Some (ps, false) =>
       Some (flat_map (fun p => match look s p with KBase q => if String.eqb p q then [] else [(p, KwState (KBase q))]
-                                               | v => [(p, KwState v)] end) ps, false)
+                                               | v => [(p, KwState v)] end) ps, PDeclared)
   end.
 Fixpoint ev (s : pstate) (e : expr) : sval :=
   match e with
@@ -88,8 +92,8 @@ Fixpoint ev (s : pstate) (e : expr) : sval :=
   | EFiltered f args usekw =>
       let a := map (ev s) args in
       if usekw then match filtered_kw s f with Some (kw, all) => VCall f a kw all | None => VError ("unknown callee " ++ f) end
-      else VCall f a [] false
-  | EDirect f args kw => VCall f (map (ev s) args) (map (fun p => (fst p, KwExpr (ev s (snd p)))) kw) false
+      else VCall f a [] PNone
+  | EDirect f args kw => VCall f (map (ev s) args) (map (fun p => (fst p, KwExpr (ev s (snd p)))) kw) PNone
   | EMethod m o args => VMethod m (ev s o) (map (ev s) args)
   | EAttr a o => VAttr a (ev s o)
   end.
@@ -97,6 +101,9 @@ Definition set_kw (s : pstate) (k : string) (v : kws) : pstate :=
   {| st_kw := (k, v) :: st_kw s; st_loc := st_loc s; st_saved := st_saved s; st_scores := st_scores s; st_asm := st_asm s |}.
 Definition assume (s : pstate) (v : kws) (b : bool) : pstate :=
   {| st_kw := st_kw s; st_loc := st_loc s; st_saved := st_saved s; st_scores := st_scores s; st_asm := st_asm s ++ [(v, b)] |}.
+(* scores[k] = v on an OrderedDict: in place if the key exists, appended otherwise *)
+Fixpoint upd_score (k : string) (v : sval) (l : list (string * sval)) : list (string * sval) :=
+  match l with [] => [(k, v)] | (k', v') :: t => if String.eqb k k' then (k, v) :: t else (k', v') :: upd_score k v t end.
 Fixpoint bind_targets (s : pstate) (ts : list target) (i n : nat) (v : sval) : pstate :=
   match ts with
   | [] => s
@@ -105,7 +112,7 @@ Fixpoint bind_targets (s : pstate) (ts : list target) (i n : nat) (v : sval) : p
       let s' := match t with
                 | TVar x => {| st_kw := st_kw s; st_loc := (x, vi) :: st_loc s; st_saved := st_saved s; st_scores := st_scores s; st_asm := st_asm s |}
                 | TScore k => {| st_kw := st_kw s; st_loc := st_loc s; st_saved := st_saved s;
-                                 st_scores := filter (fun p => negb (String.eqb (fst p) k)) (st_scores s) ++ [(k, vi)]; st_asm := st_asm s |}
+                                 st_scores := upd_score k vi (st_scores s); st_asm := st_asm s |}
                 end in
       bind_targets s' rest (Datatypes.S i) n v
   end.
